@@ -7,10 +7,10 @@ import (
 
 // Tags of constructs which open findings make unusable in the main workload.
 const (
-	tagAfterFailure = "after-failure"           // the history observes the VM after a failed call
-	tagRetAnyObj    = "ret-anyobj"              // a function with declared return type { ? } is called
-	tagSpawnFail    = "spawn-then-fail"         // a call spawns threads and then fails
-	tagExprExit     = "exit-from-expr-context"  // a function returns out of an operand position
+	tagAfterFailure = "after-failure"          // the history observes the VM after a failed call
+	tagRetAnyObj    = "ret-anyobj"             // a function with declared return type { ? } is called
+	tagSpawnFail    = "spawn-then-fail"        // a call spawns threads and then fails
+	tagExprExit     = "exit-from-expr-context" // a function returns out of an operand position
 )
 
 // Names of the findings (see FINDINGS.md).
@@ -36,9 +36,9 @@ type genOpts struct {
 	failNum, failDen int
 	stopAtFailure    bool
 	// failAt >= 0: the invocation with this index is a failing one (overrides the chance)
-	failAt int
-	avoid  map[string]bool // spec tags that must not occur
-	favour string          // function chosen with probability 1/3
+	failAt   int
+	avoid    map[string]bool // spec tags that must not occur
+	favour   string          // function chosen with probability 1/3
 	noCancel bool
 }
 
